@@ -33,6 +33,7 @@ def main():
     ap.add_argument("--tier", default="quick")
     ap.add_argument("--in-repo", action="store_true")
     ap.add_argument("--seeds", default="0")
+    ap.add_argument("--base", default=None, help="commit of /repo the patch was written against (default: meta['base'] or HEAD)")
     a = ap.parse_args()
     d = os.path.abspath(a.dir)
     meta_p = os.path.join(d, "meta.json")
@@ -48,12 +49,12 @@ def main():
             return 2
     else:
         tree = f"/tmp/seed_{os.path.basename(d)}_{os.getpid()}"
-        rc, out = sh(["git", "-C", "/repo", "worktree", "add", "--detach", tree, "HEAD"])
+        rc, out = sh(["git", "-C", "/repo", "worktree", "add", "--detach", tree, a.base or meta.get("base") or "HEAD"])
         if rc:
             print(out)
             return 2
     env = dict(os.environ, PYTHONPATH=os.path.join(tree, "src"), PYTHONDONTWRITEBYTECODE="1")
-    result = dict(at=time.strftime("%Y-%m-%dT%H:%M:%S"), repo_head=sh(["git", "-C", "/repo", "rev-parse", "--short", "HEAD"])[1].strip(),
+    result = dict(at=time.strftime("%Y-%m-%dT%H:%M:%S"), repo_head=sh(["git", "-C", tree, "rev-parse", "--short", "HEAD"])[1].strip(),
                   tier=a.tier, mode="in-repo" if a.in_repo else "worktree", checks={})
     try:
         rc0, out0 = sh(["/venv/bin/python", demo], env=env, cwd=d)
